@@ -288,6 +288,11 @@ class CContext:
         else:
             assert isinstance(typ, types.BasicType)
             tid = typ.type_id
+        if tid == BasicType.LONGDOUBLE:
+            # A long double is handled as a double (see the code generator)
+            # which lives at the begin of a larger slot.
+            data = self.pack(BasicType(BasicType.DOUBLE), float(value))
+            return data + bytes(self.sizeof(typ) - len(data))
         fmt = self.ctypes_names[tid]
         # Check format with arch options:
         assert self.sizeof(typ) == struct.calcsize(fmt)
